@@ -1,9 +1,15 @@
+//@ variant: shape TRACK=1
+//@ variant: value TRACK=2
+//@ variant: name TRACK=3
 //@ tu: libxcm/ctl/ctl.c
+//@ defs: -DXV_CTL_TRACK=$TRACK
 //@ enforce: process_get_all_attr
 //@ replace: add_attr
 //@ props: C14
 //@ expect: postcondition>=4 canary=3
 #include "_unit.h"
+/* the three variants differ in what they state about the xv_ctl_i-th reply entry (type+length | value byte | name bytes),
+ * see XV_CTL_TRACK in env/ctl_env.h */
 void harness(void)
 {
     xv_ghost_havoc();
